@@ -195,6 +195,9 @@ def make_container(kind, ops):
     if kind == 'single':
         assert len(ops) == 1
         return ops[0]
+    if kind == 'lnest':
+        # nested lists: the first two entries share an inner list
+        return [list(ops[:2])] + list(ops[2:]) if len(ops) > 2 else [list(ops)]
     raise ValueError(kind)
 
 
@@ -385,6 +388,8 @@ def container_get(kind, cont, i, n):
         return cont['u'] if i == 0 else cont['v'][i - 1]
     if kind == 'single':
         return cont
+    if kind == 'lnest':
+        return cont[0][i] if (i < 2 or n <= 2) else cont[i - 1]
     raise ValueError(kind)
 
 
